@@ -43,7 +43,8 @@ Inductive op :=
 | OScriptItems (l : list script)                      (* templ.RenderScriptItems *)
 | OCSSItems (fs : list cform)                         (* templ.RenderCSSItems *)
 | OElem (fs : list cform) (ss : list script)          (* <div class={ fs... } onclick={ s } ...> as generated *)
-| OOnce (h : N) (body : list op).                     (* @handle.Once() { body }  /  WithComponent(body) *)
+| OOnce (h : N) (body : list op)                      (* @handle.Once() { body }  /  WithComponent(body) *)
+| ONonce (n : bytes).                                 (* templ.WithNonce(ctx, n) somewhere in the rendering context *)
 
 (* ---------- the abstract log ---------- *)
 Inductive id := Script (n : bytes) | Class (c : bytes) | Handle (h : N).
@@ -95,6 +96,7 @@ Inductive want :=
 Fixpoint wanted1 (hs : list N) (o : op) : list N * list want :=
   match o with
   | OText t => (hs, [])
+  | ONonce _ => (hs, [])
   | ORender s => (hs, match scall s with [] => [] | _ => [WCallInline s] end)
   | OScriptItems _ => (hs, [])
   | OCSSItems _ => (hs, [])
